@@ -1,6 +1,6 @@
 /- Driver domain `gin`: histories of API operations against one gin state. -/
 import Gin.Drv.ValJson
-import Gin.State
+import Gin.Machine
 open Lean
 
 namespace Gin.Drv.GinDom
@@ -59,6 +59,8 @@ partial def opOfJson (op : Json) : Op :=
   | "query" => .query (keyOfJson op)
   | "call" => .call (splitDot (jstr (jfield op "sel"))) ((jarr (jfield op "enter")).map scopeArgOfJson)
       ((jarr (jfield op "args")).map valOfJson) (kvsOfJson (jfield op "kwargs"))
+  | "ecall" => .ecall (splitDot (jstr (jfield op "sel"))) ((jarr (jfield op "enter")).map scopeArgOfJson)
+      ((jarr (jfield op "args")).map valOfJson) (kvsOfJson (jfield op "kwargs"))
   | "getb" => .getb (splitDot (jstr (jfield op "sel"))) (jstrs (jfield op "scope")) (jbool (jfield op "inherit"))
   | "hook" => .addHook (hookOfJson op)
   | "finalize" => .finalize
@@ -85,6 +87,12 @@ partial def outToJson : Out → Json
   | .scope s => ok (strs s)
   | .names l => ok (strs (sortStrs l))
   | .body outs => ok (Json.mkObj [("body", .arr (outs.map outToJson).toArray)])
+  | .events l =>
+    -- per target, in call order: [scope, params, extra, kw]
+    let sels := sortStrs ((l.map (fun e => joinDot e.sel)).eraseDups)
+    ok (.arr (sels.map (fun s => Json.arr #[.str s, .arr ((l.filter (fun e => joinDot e.sel == s)).map (fun e =>
+      Json.arr #[strs e.scope, kvsToJson e.received.params, .arr (e.received.extra.map valToJson).toArray,
+                 kvsToJsonSorted e.received.kw])).toArray])).toArray)
 
 def run (case : Json) : Json :=
   let ops := (jarr (jfield case "ops")).map opOfJson
